@@ -715,6 +715,21 @@ class PointsTo:
             if pos:
                 self.add(("F", c, "elem"), self.elems(pos[0]))
             return {c}
+        if dotted == "builtins.enumerate":
+            # a container of (index, element) pairs
+            c = ("cont", self.site(func, node))
+            t = ("tuple", self.site(func, node, "#item"))
+            if pos:
+                self.add(("F", t, "1"), self.elems(pos[0]))
+            self.add(("F", c, "elem"), {t})
+            return {c}
+        if dotted == "builtins.zip":
+            c = ("cont", self.site(func, node))
+            t = ("tuple", self.site(func, node, "#item"))
+            for i, pv in enumerate(pos):
+                self.add(("F", t, str(i)), self.elems(pv))
+            self.add(("F", c, "elem"), {t})
+            return {c}
         if dotted == "builtins.dict":
             c = ("cont", self.site(func, node))
             if pos:
